@@ -24,7 +24,21 @@ CFG = {
             "all 23 permutations, reversed/swapped/rotated/shifted/high-bit/complemented) x the 4 remainders, all 6 position "
             "pairs x all pairs of upper-case letters (quick) / letters and digits (thorough), the magic preceded by 1..4 bytes "
             "and with one byte deleted; per n/4 a random well-formed packet with one magic byte replaced by a random other "
-            "value and one with a random near-miss word (oracle: reject, or re-encoding reproduces the datagram); then per n: one random well-formed packet (0..5 sub-messages, arbitrary id/flags, payload "
+            "value and one with a random near-miss word (oracle: reject, or re-encoding reproduces the datagram); the "
+            "content-dependent-boundary family (nothing in the format makes a sub-message boundary depend on the bytes found "
+            "there): a dictionary of 4-byte patterns (the magic, its single-byte near misses and sibling words/permutations, "
+            "the magic with the byte-order bit set, magic letters with small lengths, the header's version/vendor and prefix "
+            "bytes, 00000000, ffffffff and mixes, the header of the preceding sub-message; ~28 key / ~110 in all) placed as "
+            "sub-message header at the boundary behind the header and behind 1, 2, 3 explicit-length sub-messages, read as the "
+            "pattern itself denotes (byte order from its flags byte, payload of exactly the denoted length up to 65535; zero = "
+            "rest of datagram), x {exact fit, one byte short, one byte long, followed by two more sub-messages, twice in a row, "
+            "payload starting with the magic, pattern alone, pattern twice, 3 bytes of it} (quick: key patterns at every "
+            "boundary, the whole dictionary behind the header; thorough: everything everywhere); concatenations of two and "
+            "three well-formed datagrams from 6 shapes (incl. a second datagram of exactly 4+20563 bytes, which the format reads "
+            "as ONE sub-message id 0x52 flags 0x54 length 0x5053 - accepted - and its one-short/one-long neighbours); per n/4 a "
+            "random well-formed packet with one sub-message header overwritten by a dictionary pattern (per n/16 with the "
+            "payload resized to fit) and 2-3 random well-formed packets concatenated; a returned packet that encodes a strict "
+            "prefix of the datagram gets its own verdict `bad unread`; then per n: one random well-formed packet (0..5 sub-messages, arbitrary id/flags, payload "
             "0..65535 skewed small, last one zero-length with p=1/3) encoded by the spec (`enc`: implementation must return "
             "exactly that packet) and one single-edit mutation (truncate, overwrite, insert, delete, append, flip the "
             "endianness bit, zero a length byte) of another (`raw`); per n/4: an arbitrary (not nec. well-formed) packet "
